@@ -40,6 +40,14 @@ pub fn errprop_bad<R: BufRead>(reader: R) -> std::io::Result<usize> {
     Ok(n)
 }
 
+pub fn errprop_adapter_bad<R: BufRead>(reader: R) -> std::io::Result<usize> {
+    let mut n = 0;
+    for line in reader.lines().map_while(Result::ok) {
+        n += line.len();
+    }
+    Ok(n)
+}
+
 pub fn errprop_sink_bad(s: &str) -> Result<i64, std::num::ParseIntError> {
     let v = s.parse::<i64>().unwrap_or(0);
     Ok(v)
